@@ -267,7 +267,7 @@ class Inliner:
             return None
         if _unsupported(h.node):
             return None
-        if h.cls is None and h.module is not f.module:
+        if h.module is not f.module:
             # a module-level helper sees its own module's globals: only inline when it uses none that differ
             for n in ast.walk(h.node):
                 if isinstance(n, ast.Name) and isinstance(n.ctx, ast.Load) and n.id not in _locals_of(h.node) \
@@ -280,6 +280,11 @@ class Inliner:
                         # define: made visible there under the same name
                         if n.id in h.module.assigns and f.module.assigns.get(n.id) is h.module.assigns[n.id]:
                             continue  # made visible earlier
+                        # a name the helper's module imports (from copy import copy) and the caller's module does not know
+                        if n.id in h.module.imports and (n.id not in f.module.imports or f.module.imports[n.id] == h.module.imports[n.id]) \
+                                and n.id not in f.module.assigns and n.id not in f.module.classes and n.id not in f.module.functions:
+                            f.module.imports[n.id] = h.module.imports[n.id]
+                            continue
                         if n.id in h.module.assigns and n.id not in f.module.assigns and self.model.resolve_name(f.module, n.id) is None \
                                 and isinstance(h.module.assigns[n.id], (ast.Dict, ast.Tuple, ast.List, ast.Set, ast.Constant)):
                             f.module.assigns[n.id] = h.module.assigns[n.id]
